@@ -15,7 +15,7 @@
    of the original values); hence the eliminable pass keeps the model closed
    (C15_closed_eliminable_acyclic) — exactly what the cyclic findings violate
    (C15_closed_cyclic_refuted).  C15_closed_simplify_once_partial composes closedness over the
-   seven passes: five PROVED (round 5), replace_constant_values and detect_aliases ASSUMED.
+   seven passes, all PROVED from carve-out hypotheses (round 6); see the comment at the theorem.
    STILL OPEN (`_partial`): composed C15_closed.  Missing lemmas: closedness of detect_aliases
    (symbols of the substituted values are the canonical variables, which stay declared: needs
    `canonical in all_states` from the `bad` test) and of the three value loops for chained
@@ -149,15 +149,35 @@ Theorem C15_closed_replace_expressions (tm : name) (on_params : bool) (m : model
 Proof. exact (closed_replace_exprs tm on_params m). Qed.
 Print Assumptions C15_closed_replace_expressions.
 
-(* composition over _simplify_once (any subset of the modelled options): PARTIAL.  In `passes_cl tm o`
-   FIVE of the seven passes are proved: eliminate_constant_assignments and replace_parameter_values
-   (no hypothesis), replace_parameter_expressions and replace_constant_expressions (hypothesis
-   H_cl_exprs: values closed, acyclic, converged), the eliminable pass (no eliminable state, acyclic,
-   converged).  REMAINING, still assumed as the pass's own closedness on the model reaching it:
-   replace_constant_values (needs the dropped-alias bookkeeping and that ALL constants are
-   substituted) and detect_aliases (canonical variables stay declared: relinv + the `bad` test);
-   also open: `vals_closed` is a hypothesis per pass, not yet an invariant carried by the passes, and
-   the eliminable-states path *)
+(* replace_constant_values: after the resolve loop (acyclic, converged) the substituted values mention
+   no constant and only declared symbols, so dropping ALL constants leaves the model closed *)
+Theorem C15_closed_replace_constant_values (tm : name) (m : model) :
+  closed tm m -> vals_closed tm m -> acyclic (const_defs m) ->
+  failed (replace_const_values m) = false -> warned m = false ->
+  warned (replace_const_values m) = false ->
+  closed tm (replace_const_values m).
+Proof. exact (closed_replace_const_values tm m). Qed.
+Print Assumptions C15_closed_replace_constant_values.
+
+(* detect_aliases: every alias is replaced by +- its canonical variable, which by the invariant of
+   the alias relation is not itself eliminated and (the `canonical in all_states` test) is declared *)
+Theorem C15_closed_detect_aliases (tm : name) (ad : bool) (m : model) :
+  closed tm m -> relinv (dne_of m) (arel m) -> da_decl (pc_of m) (algs m) (dne_of m) (eqs m) ->
+  da_nored ad (algs m) (ders m) (dne_of m) (pc_of m) (arel m) (eqs m) = true ->
+  failed (detect_aliases ad m) = false ->
+  closed tm (detect_aliases ad m).
+Proof. exact (closed_detect_aliases tm ad m). Qed.
+Print Assumptions C15_closed_detect_aliases.
+
+(* composition over _simplify_once (any subset of the modelled options).  In `passes_cl tm o` ALL
+   SEVEN passes are now proved from carve-out hypotheses stated on the model reaching each pass:
+   none for eliminate_constant_assignments / replace_parameter_values; values closed + acyclic +
+   converged for replace_parameter/constant_expressions and replace_constant_values; no eliminable
+   state + acyclic + converged for the eliminable pass; the alias invariant, declared alias symbols
+   and no redundant alias (H_da15) for detect_aliases.  The name keeps `_partial` because
+   (i) `vals_closed` (parameter / constant values only mention declared symbols) is a hypothesis at
+   each value pass, not yet an invariant established by the earlier passes, and (ii) the
+   eliminable-STATES path (eliminate_vars2) is excluded by `no_elim_state` *)
 Theorem C15_closed_simplify_once_partial (tm : name) (o : options) (m : model) :
   run_ok (passes_cl tm o) m -> closed tm m -> failed (simplify_once o m) = false ->
   closed tm (simplify_once o m).
